@@ -198,7 +198,12 @@ fn test_case(c: &Case) -> TestResult {
                 1 => (ExitStatus::Overloaded, wire::ST_OVERLOADED, 0),
                 2 => (ExitStatus::UnknownRole, wire::ST_UNKNOWN_ROLE, 0),
                 3 => (ExitStatus::SUCCESS, wire::ST_COMPLETE, 0),
-                4 => (ExitStatus::ABORT, wire::ST_COMPLETE, wire::ABRT),
+                // the constant is a `Complete(code)`: it maps like any completed request (which
+                // code it carries is the crate's choice; C11 only calls it "distinguished")
+                4 => match ExitStatus::ABORT {
+                    ExitStatus::Complete(c) => (ExitStatus::ABORT, wire::ST_COMPLETE, c),
+                    _ => (ExitStatus::ABORT, wire::ST_COMPLETE, wire::ABRT),
+                },
                 5 => (ExitStatus::default(), wire::ST_COMPLETE, 0),
                 _ => (ExitStatus::from(*code), wire::ST_COMPLETE, *code),
             };
